@@ -13,10 +13,9 @@ MANIFEST = dict(
     technique="Lean 4 proof (invariant over a discrete-event simulation + scheduler-independent corollary of the C01 soundness theorem; refutation by a kernel-evaluated witness) + correspondence run under virtual time",
     design="5/C18",
 )
-GEN = ["Timing", "Errors"]
+GEN = ["Errors"]
 THEOREMS = [
-    "c18_no_cross_talk_any_schedule", "c18_no_cross_talk", "c18_lost_response_witness", "c18_no_loss_partial",
-]
+    "c18_no_cross_talk_any_schedule", "c18_no_cross_talk", "c18_lost_response_witness", "c18_no_loss_partial", "c18_each_message_consumed_once", "c18_loss_only_by_other_waiter"]
 RULE = (
     "1..4 callers started at distinct ticks on one stream pair x every permutation of the answer order x answer ticks "
     "around poll boundaries (tie-free residues) x interleaved notifications / foreign responses / duplicate answers / errors; "
